@@ -638,9 +638,12 @@ impl<T> SurfaceOwned<T> {
         F: FnMut(Position) -> T,
     {
         let mut data = Vec::with_capacity(size.height * size.width);
-        for row in 0..size.height {
-            for col in 0..size.width {
-                data.push(f(Position { row, col }));
+        // nothing to fill if one of the extents is zero, do not walk the other one
+        if !size.is_empty() {
+            for row in 0..size.height {
+                for col in 0..size.width {
+                    data.push(f(Position { row, col }));
+                }
             }
         }
         Self {
